@@ -286,6 +286,83 @@ func (P *Prog) Methods(pkg, typ string) []*ssa.Function {
 	return out
 }
 
+// MethodsDeep: the methods of the named type and of every same-package struct type it embeds or holds by
+// value (so that a split of a type into an embedded part does not hide its methods).
+func (P *Prog) MethodsDeep(pkg, typ string) []*ssa.Function {
+	n := P.Named(pkg, typ)
+	if n == nil {
+		return nil
+	}
+	var out []*ssa.Function
+	seen := map[*types.TypeName]bool{}
+	var visit func(n *types.Named, depth int)
+	visit = func(n *types.Named, depth int) {
+		n = n.Origin()
+		if seen[n.Obj()] || depth > 3 {
+			return
+		}
+		seen[n.Obj()] = true
+		for i := 0; i < n.NumMethods(); i++ {
+			if f := P.SSA.FuncValue(n.Method(i)); f != nil && f.Blocks != nil {
+				out = append(out, f)
+			}
+		}
+		st, ok := n.Underlying().(*types.Struct)
+		if !ok {
+			return
+		}
+		for i := 0; i < st.NumFields(); i++ {
+			ft := st.Field(i).Type()
+			if p, ok := ft.(*types.Pointer); ok && st.Field(i).Embedded() {
+				ft = p.Elem()
+			}
+			if fn, ok := ft.(*types.Named); ok && fn.Obj().Pkg() == n.Obj().Pkg() {
+				if _, isStruct := fn.Underlying().(*types.Struct); isStruct {
+					visit(fn, depth+1)
+				}
+			}
+		}
+	}
+	visit(n, 0)
+	sort.Slice(out, func(i, j int) bool { return out[i].Pos() < out[j].Pos() })
+	return out
+}
+
+// FieldsDeep: the fields of the named struct type, followed through same-package struct-typed fields.
+func (P *Prog) FieldsDeep(pkg, typ string) []*types.Var {
+	n := P.Named(pkg, typ)
+	if n == nil {
+		return nil
+	}
+	var out []*types.Var
+	seen := map[*types.TypeName]bool{}
+	var visit func(n *types.Named, depth int)
+	visit = func(n *types.Named, depth int) {
+		n = n.Origin()
+		if seen[n.Obj()] || depth > 3 {
+			return
+		}
+		seen[n.Obj()] = true
+		st, ok := n.Underlying().(*types.Struct)
+		if !ok {
+			return
+		}
+		for i := 0; i < st.NumFields(); i++ {
+			f := st.Field(i)
+			ft := f.Type()
+			if fn, ok := ft.(*types.Named); ok && fn.Obj().Pkg() == n.Obj().Pkg() {
+				if _, isStruct := fn.Underlying().(*types.Struct); isStruct {
+					visit(fn, depth+1)
+					continue
+				}
+			}
+			out = append(out, f)
+		}
+	}
+	visit(n, 0)
+	return out
+}
+
 // PkgFuncs returns all source functions (incl. closures) of a package.
 func (P *Prog) PkgFuncs(pkg string) []*ssa.Function {
 	fs := append([]*ssa.Function(nil), P.byPkg[pkg]...)
